@@ -51,18 +51,89 @@ def hyp(I, a, b):
     return make_math("hypot")(I, None, [Num(a), Num(b)], {}, None).p
 
 
+def deep_subs(I, p: Poly, subs):
+    """Substitute input symbols everywhere, also inside uninterpreted applications (which are rebuilt, so the
+    canonical forms and the arctan2 / hypot reductions apply to the substituted arguments)."""
+    if not subs:
+        return p
+    out = Poly()
+    for m, c in p.terms.items():
+        t = Poly.const(c)
+        for sname, e in m:
+            if sname in I.apps:
+                fn, args = I.apps[sname]
+                new_args = [deep_subs(I, a, subs) for a in args]
+                if all(na == a for na, a in zip(new_args, args)):
+                    base = Poly.sym(sname)
+                else:
+                    try:
+                        r = make_math(fn)(I, None, [Num(a) for a in new_args], {}, None)
+                        base = r.p if isinstance(r, Num) else Poly.sym(sname)
+                    except Exception:
+                        base = Poly.sym(sname)
+            else:
+                base = Poly.sym(sname)
+                for sym, val in subs:
+                    if sym == sname:
+                        base = val
+                        break
+            t = t * base.pow(e)
+        out = out + t
+    return out
+
+
+class PathAlgebra:
+    """Equality of two formulas *on one abstract path*: modulo the equalities the path itself established
+    (a target compared equal with the origin, an angle compared equal with zero)."""
+
+    def __init__(self, I, decisions):
+        from .c11 import equalities
+        facts = dict(decisions)
+        self.I = I
+        self.subs = equalities(I, facts)
+        self.zero = []
+        for k, v in facts.items():
+            if k.startswith("cmp:Eq:") and v is True:
+                q = I.key_poly.get(k.split(":", 2)[2])
+                if q is not None:
+                    q = deep_subs(I, q, self.subs)
+                    if not q.is_zero() and not q.is_const():
+                        self.zero.append(q)
+
+    def norm(self, p: Poly) -> Poly:
+        return deep_subs(self.I, p, self.subs)
+
+    def same(self, a: Poly, b: Poly) -> bool:
+        d = self.norm(a) - self.norm(b)
+        if d.is_zero():
+            return True
+        for q in self.zero:
+            # d == k * q for a constant k
+            (m0, c0) = min(q.terms.items())
+            c = d.terms.get(m0)
+            if c is not None and (d - q * Poly.const(c / c0)).is_zero():
+                return True
+        return False
+
+
 def trig_symbol(I, p: Poly, fname):
     syms = [s for s in p.symbols() if s in I.apps and I.apps[s][0] == fname]
     return syms
 
 
-def isclose_subst(I, rec, p: Poly) -> Poly:
+def isclose_subst(I, rec, p: Poly, PA=None) -> Poly:
     """Apply the equalities the accepted path established with numpy.isclose."""
     for k, v in rec["decisions"]:
         if k.startswith("isclose:") and v is True:
             a, b = k[len("isclose:"):].rsplit(":", 1) if k.count(":") == 2 else _split_isclose(k)
             if a in I.apps and b in I.apps:
-                p = p.subs(b, Poly.sym(a))
+                pa, pb = Poly.sym(a), Poly.sym(b)
+                if PA is not None:
+                    # the path's own equalities were substituted into the formulas: bring the two radii into the same form
+                    pa, pb = PA.norm(pa), PA.norm(pb)
+                mb = pb.single_monomial()
+                if mb is not None and len(mb[0]) == 1 and mb[0][0][1] == 1 and mb[1] == 1:
+                    p = p.subs(mb[0][0][0], pa)
     return p
 
 
@@ -102,6 +173,24 @@ def analyse_shape(check, L, shape, direction, dims):
         n = rec["parametric"][-1]
         d = ["; ".join(f"{k}={v}" for k, v in rec["decisions"])[:400]]
         f, f0, f1 = row(n["theta"]), row(n["f0"]), row(n["f1"])
+        PA = PathAlgebra(I, rec["decisions"])
+
+        def bad(rule, key, msg, dd, PA=PA):
+            if PA.zero:
+                # the path assumed an equality between trigonometric terms that the polynomial algebra cannot exploit
+                # (it is often infeasible): a mismatch on it is not a definite breach
+                check.undecided(rule, f"{msg} -- on a path that assumes {PA.zero[0].key()[:80]} == 0")
+            else:
+                check.violation(rule, key, msg, dd)
+        if f is not None and f0 is not None and f1 is not None and (PA.subs or PA.zero):
+            # compare everything under what this path knows to be equal
+            try:
+                f, f0, f1 = [PA.norm(x) for x in f], [PA.norm(x) for x in f0], [PA.norm(x) for x in f1]
+            except ZeroDivisionError:
+                # the path's equalities put the start on the centre (radius 0): x / hypot(x, y) is not cos(arctan2(y, x)) there
+                check.assume(f"{label}: a path on which the start coincides with the centre of rotation (radius 0) is not compared")
+                accepted -= 1
+                continue
         if f is None or f0 is None or f1 is None:
             check.undecided("R1", f"{label}: the curve function does not evaluate to three coordinates the analysis can follow ({n['theta']!r})")
             continue
@@ -115,21 +204,25 @@ def analyse_shape(check, L, shape, direction, dims):
         else:
             cx = cy = None
         end = list(O) if shape == "circle" else [T[0], T[1], T[2] if dims == 3 else O[2]]
+        Oa = [PA.norm(x) for x in O]
+        end = [PA.norm(x) for x in end]
+        if cx is not None:
+            cx, cy = PA.norm(cx), PA.norm(cy)
         # ---------------- R1 start / end / z
-        if [p.key() for p in f0] == [p.key() for p in O]:
+        if all(PA.same(a, b) for a, b in zip(f0, Oa)):
             check.ok("R1", f"{label}: f(0) = current position")
         else:
-            check.violation("R1", f"{shape}:start", f"{label}: the curve starts at {keys(f0)}, the current position is {keys(O)}", d)
-        f1s = [isclose_subst(I, rec, p) for p in f1]
-        if [p.key() for p in f1s] == [p.key() for p in end]:
+            bad("R1", f"{shape}:start", f"{label}: the curve starts at {keys(f0)}, the current position is {keys(O)}", d)
+        f1s = [isclose_subst(I, rec, p, PA) for p in f1]
+        if all(PA.same(a, b) for a, b in zip(f1s, end)):
             check.ok("R1", f"{label}: f(1) = target")
         else:
-            check.violation("R1", f"{shape}:end", f"{label}: the curve ends at {keys(f1s)}, the requested end point is {keys(end)}", d)
-        zexp = O[2] + THETA * (end[2] - O[2])
-        if f[2] == zexp:
+            bad("R1", f"{shape}:end", f"{label}: the curve ends at {keys(f1s)}, the requested end point is {keys(end)}", d)
+        zexp = Oa[2] + THETA * (end[2] - Oa[2])
+        if PA.same(f[2], zexp):
             check.ok("R1", f"{label}: z linear in the parameter")
         else:
-            check.violation("R1", f"{shape}:z", f"{label}: z(theta) = {f[2].key()}, expected {zexp.key()}", d)
+            bad("R1", f"{shape}:z", f"{label}: z(theta) = {f[2].key()}, expected {zexp.key()}", d)
         if shape == "arc_radius":
             arc_radius_centre(check, L, rec, direction, label, d)
             continue
@@ -138,7 +231,7 @@ def analyse_shape(check, L, shape, direction, dims):
         if len(cs) != 1 or len(ss) != 1:
             if shape == "spiral" and not cs and not ss:
                 pass
-            check.violation("R2", f"{shape}:form", f"{label}: x(theta)/y(theta) are not of the form centre + R*cos(A) / centre + R*sin(A): {keys(f[:2])}", d)
+            bad("R2", f"{shape}:form", f"{label}: x(theta)/y(theta) are not of the form centre + R*cos(A) / centre + R*sin(A): {keys(f[:2])}", d)
             continue
         Rc, P0x = f[0].coeff_of(cs[0]), f[0].without(cs[0])
         Rs, P0y = f[1].coeff_of(ss[0]), f[1].without(ss[0])
@@ -148,48 +241,48 @@ def analyse_shape(check, L, shape, direction, dims):
         elif (Rc + Rs).is_zero() and (Ac - As).is_zero():
             A, R = -As, Rc          # sin(-A) = -sin(A): the true angle is -As
         else:
-            check.violation("R2", f"{shape}:xy-mismatch", f"{label}: x uses radius {Rc.key()} / angle {Ac.key()}, y uses {Rs.key()} / {As.key()}", d)
+            bad("R2", f"{shape}:xy-mismatch", f"{label}: x uses radius {Rc.key()} / angle {Ac.key()}, y uses {Rs.key()} / {As.key()}", d)
             continue
-        if P0x == cx and P0y == cy:
+        if PA.same(P0x, cx) and PA.same(P0y, cy):
             check.ok("R2", f"{label}: centre = {cx.key()}, {cy.key()}")
         else:
-            check.violation("R2", f"{shape}:centre", f"{label}: the curve turns about ({P0x.key()}, {P0y.key()}); the {('given centre' if shape in ('arc', 'circle', 'helix') else 'expected centre')} is ({cx.key()}, {cy.key()})", d)
+            bad("R2", f"{shape}:centre", f"{label}: the curve turns about ({P0x.key()}, {P0y.key()}); the {('given centre' if shape in ('arc', 'circle', 'helix') else 'expected centre')} is ({cx.key()}, {cy.key()})", d)
             continue
-        dox, doy = O[0] - cx, O[1] - cy
+        dox, doy = Oa[0] - cx, Oa[1] - cy
         dtx, dty = end[0] - cx, end[1] - cy
         r0, r1 = hyp(I, dox, doy), hyp(I, dtx, dty)
         if shape in ("arc", "circle", "thread"):
             if "theta" in R.symbols():
-                check.violation("R2", f"{shape}:radius-varies", f"{label}: the radius {R.key()} depends on the parameter: the curve does not keep a constant radius about its centre", d)
-            elif R == r0:
+                bad("R2", f"{shape}:radius-varies", f"{label}: the radius {R.key()} depends on the parameter: the curve does not keep a constant radius about its centre", d)
+            elif PA.same(R, r0):
                 check.ok("R2", f"{label}: constant radius = distance of the start from the centre")
             else:
-                check.violation("R2", f"{shape}:radius", f"{label}: radius {R.key()}, the start is {r0.key()} away from the centre", d)
+                bad("R2", f"{shape}:radius", f"{label}: radius {R.key()}, the start is {r0.key()} away from the centre", d)
         else:
             want = r0 + (r1 - r0) * THETA
-            if R == want:
+            if PA.same(R, want):
                 check.ok("R2", f"{label}: radius linear from start radius to end radius")
             else:
-                check.violation("R2", f"{shape}:radius-profile", f"{label}: radius {R.key()}, expected {want.key()}", d)
+                bad("R2", f"{shape}:radius-profile", f"{label}: radius {R.key()}, expected {want.key()}", d)
         if not theta_degree_ok(A):
-            check.violation("R2", f"{shape}:angle-nonlinear", f"{label}: the angle {A.key()} is not linear in the parameter", d)
+            bad("R2", f"{shape}:angle-nonlinear", f"{label}: the angle {A.key()} is not linear in the parameter", d)
             continue
         delta, a0 = A.coeff_of("theta"), A.without("theta")
         s_ang = atan2(I, doy, dox)
         e_ang = atan2(I, dty, dtx)
-        if a0 == s_ang:
+        if PA.same(a0, s_ang):
             check.ok("R2", f"{label}: starts at the start angle")
         else:
-            check.violation("R2", f"{shape}:start-angle", f"{label}: the angle starts at {a0.key()}, the start point lies at {s_ang.key()}", d)
+            bad("R2", f"{shape}:start-angle", f"{label}: the angle starts at {a0.key()}, the start point lies at {s_ang.key()}", d)
         # ---------------- R3 sweep
         sgn = Poly.const(-1) if direction == "CLOCKWISE" else Poly.const(1)
         base = e_ang - s_ang
         extra = delta - base
         if shape == "circle":
-            ok = delta == sgn * TWO_PI
+            ok = PA.same(delta, sgn * TWO_PI)
             exp = f"{'-' if direction == 'CLOCKWISE' else '+'}2*pi (one full turn)"
         elif shape == "arc":
-            ok = extra.is_zero() or extra == sgn * TWO_PI
+            ok = PA.same(extra, Poly()) or PA.same(extra, sgn * TWO_PI)
             exp = f"(end - start) or (end - start) {'-' if direction == 'CLOCKWISE' else '+'} 2*pi"
         else:
             turns = Poly.sym("arg.turns") if shape != "thread" else None
@@ -197,12 +290,12 @@ def analyse_shape(check, L, shape, direction, dims):
                 # thread: turns = max(1, int(|dz| / pitch)), any integer symbol
                 cand = [s for s in extra.symbols() if s in I.int_symbols]
                 turns = Poly.sym(cand[0]) if cand else Poly.const(1)
-            ok = extra == sgn * TWO_PI * turns or extra == sgn * TWO_PI * (turns - Poly.const(1))
+            ok = PA.same(extra, sgn * TWO_PI * turns) or PA.same(extra, sgn * TWO_PI * (turns - Poly.const(1)))
             exp = f"(end - start) + {'-' if direction == 'CLOCKWISE' else '+'}2*pi*(turns or turns-1)"
         if ok:
             check.ok("R3", f"{label}: sweep {delta.key()[:60]}")
         else:
-            check.violation("R3", f"{shape}:{direction}:sweep", f"{label}: the angle advances by {delta.key()} over the path; expected {exp}", d)
+            bad("R3", f"{shape}:{direction}:sweep", f"{label}: the angle advances by {delta.key()} over the path; expected {exp}", d)
     check.floor(accepted >= 1, f"C10: {label} has no accepted abstract path")
     return len(recs)
 
@@ -262,8 +355,16 @@ def direction_rules(check, L):
     n = 0
     for member, sgn in (("CLOCKWISE", -1), ("COUNTER", 1)):
         f = ci.lookup("enforce")
-        from ..interp import Frame
-        for path in I.explore(lambda I_: None, lambda I_, _: _call(I_, f, [Member("Direction", member), ang], ci, node), max_dev=None):
+        # three-valued comparisons: every path knows whether the angle is negative, zero or positive, so the
+        # specified value is decided at the boundary too (enforce(0) is a full turn in the selected direction)
+        saved_mode = I.sign_mode
+        I.sign_mode = "sign"
+        seen = set()
+        try:
+            paths = list(I.explore(lambda I_: None, lambda I_, _: _call(I_, f, [Member("Direction", member), ang], ci, node), max_dev=None))
+        finally:
+            I.sign_mode = saved_mode
+        for path in paths:
             n += 1
             if path.outcome != "return":
                 check.violation("R3", f"enforce:{member}:raises", f"Direction.{member}.enforce raises {path.value.cls}", [])
@@ -271,21 +372,19 @@ def direction_rules(check, L):
             r = I.as_num(path.value)
             shifted = r is not None and r.p == Poly.sym("angle") + Poly.const(sgn) * TWO_PI
             same = r is not None and r.p == Poly.sym("angle")
-            # which side of zero did the path decide?
-            lt = path.facts.get("cmp:Lt:angle")
-            gt = path.facts.get("cmp:Gt:angle")
-            if member == "CLOCKWISE":
-                nonneg = (lt is False) if lt is not None else (gt is True if gt is not None else None)
-                good = (shifted and nonneg is True) or (same and nonneg is False)
-                spec = "angle - 2*pi when angle >= 0, else angle"
+            sg = path.facts.get("sign:angle")
+            where = {1: "positive", 0: "zero", -1: "negative"}.get(sg)
+            if sg is None:
+                check.undecided("R3", f"Direction.{member}.enforce: a path that never compares the angle with zero (decisions {path.decisions})")
+                continue
+            seen.add(sg)
+            must_shift = (sg >= 0) if member == "CLOCKWISE" else (sg <= 0)
+            spec = "angle - 2*pi when angle >= 0, else angle" if member == "CLOCKWISE" else "angle + 2*pi when angle <= 0, else angle"
+            if (shifted and must_shift) or (same and not must_shift):
+                check.ok("R3", f"Direction.{member}.enforce for a {where} angle: {spec}")
             else:
-                nonpos = (gt is False) if gt is not None else (lt is True if lt is not None else None)
-                good = (shifted and nonpos is True) or (same and nonpos is False)
-                spec = "angle + 2*pi when angle <= 0, else angle"
-            if good:
-                check.ok("R3", f"Direction.{member}.enforce: {spec}")
-            else:
-                check.violation("R3", f"enforce:{member}", f"Direction.{member}.enforce returns {path.value!r} on a path with decisions {path.decisions}; specified: {spec}", [])
+                check.violation("R3", f"enforce:{member}:{where}", f"Direction.{member}.enforce returns {path.value!r} for a {where} angle; specified: {spec}", [])
+        check.floor(seen == {-1, 0, 1}, f"C10.R3: Direction.{member}.enforce explored for angle signs {sorted(seen)} only")
         ft = ci.lookup("full_turn")
         for path in I.explore(lambda I_: None, lambda I_, _: _call(I_, ft, [Member("Direction", member)], ci, node), max_dev=None):
             n += 1
